@@ -302,11 +302,19 @@ func (check typecheck) binaryExpr(n *node) error {
 	}
 
 	// Ensure that if values are untyped, both are converted to the same type
-	_ = check.convertUntyped(c0, c1.typ)
-	_ = check.convertUntyped(c1, c0.typ)
+	err0 := check.convertUntyped(c0, c1.typ)
+	err1 := check.convertUntyped(c1, c0.typ)
 
 	if isComparisonAction(a) {
-		return check.comparison(n)
+		if err := check.comparison(n); err != nil {
+			return err
+		}
+		// The operands are comparable, but a constant operand must also
+		// be representable in the type of the other operand.
+		if err0 != nil {
+			return err0
+		}
+		return err1
 	}
 
 	// The result of a comparison has the type bool here, rather than being an untyped boolean:
